@@ -155,6 +155,7 @@ def run_history(ctx, e, rng, nsteps, on_step=None, conc=False, churn=False, hsm=
     import pathlib
     case = dharness.DWorld(e, rng, churn=churn, hsm=hsm)
     case.reroot = reroot
+    case.dispatch_src = {}
     db = case.w.db
     case.precompleted = set(r.id for r in db.ArchiveFileCopyRequest.select().where(db.ArchiveFileCopyRequest.completed == 1))
     tool_mode = rng.choice(["ok", "ok", "ok", "ok", "fail-src", "partial", "hang"])
@@ -222,12 +223,32 @@ def run_history(ctx, e, rng, nsteps, on_step=None, conc=False, churn=False, hsm=
     def do_iterate(host):
         bt, bc = case.all_trees(), case.copies()
         e.set_host(host)
+        before_names = [t[1] for t in case.daemons[host].pending()] if hasattr(case.daemons[host], "pending") else []
         try:
             pend = case.iterate(host)
         except Exception as ex:  # noqa
             p8.append(f"update pass on {host} raised {type(ex).__name__}: {ex}")
             log.append(f"iterate {host}: RAISED {ex}")
             return
+        # what the index said about the source of each request this pass dispatched (a new pre-pull search in the queue)
+        new = [t[1] for t in pend]
+        for nm in before_names:
+            if nm in new:
+                new.remove(nm)
+        for nm in new:
+            m = re.match(r"Pre-pull search for (\S+?)/(\S+) in (\S+)", nm)
+            if not m:
+                continue
+            try:
+                f_ = (db.ArchiveFile.select().join(db.ArchiveAcq)
+                      .where(db.ArchiveAcq.name == m.group(1), db.ArchiveFile.name == m.group(2)).get())
+                g_ = db.StorageGroup.get(name=m.group(3))
+            except Exception:
+                continue
+            RQ_ = db.ArchiveFileCopyRequest
+            for rq in RQ_.select().where(RQ_.file == f_.id, RQ_.group_to == g_.id, RQ_.completed == 0, RQ_.cancelled == 0):
+                sc = db.ArchiveFileCopy.get_or_none(file=f_.id, node=rq.node_from_id)
+                case.dispatch_src[rq.id] = sc.has_file if sc is not None else "N"
         log.append(f"iterate {host}: usable={sorted(case.view[host])} queued={[t[1] for t in pend][:6]}")
         judge(host, bt, bc, ("iterate", host))
 
@@ -256,7 +277,11 @@ def run_history(ctx, e, rng, nsteps, on_step=None, conc=False, churn=False, hsm=
                 if dest is not None:
                     src_tracked = (rq.node_from_id, rq.file_id) in case.tracked
                     sc = db.ArchiveFileCopy.get_or_none(file=rq.file_id, node=rq.node_from_id)
-                    if src_tracked or sc is None or sc.has_file != "Y":
+                    if case.dispatch_src.get(rq.id) in ("X", "N"):
+                        # the index already said "corrupt" / "absent" about the source when the daemon dispatched this transfer:
+                        # what it then recorded healthy at the destination is its own doing, not external tampering
+                        case.tracked.discard((dest.id, rq.file_id))
+                    elif src_tracked or sc is None or sc.has_file != "Y":
                         case.tracked.add((dest.id, rq.file_id))
                     else:
                         case.tracked.discard((dest.id, rq.file_id))
